@@ -62,7 +62,8 @@ CONTRACTS[M + "get_Note"] = dict(
     requires=[("valid-names", _VALID), ("non-negative-pitches", "all([pitch(open_string(t)) >= 0 for t in self.tuning])")],
     returns="Note", modifies=[],
     ensures=[("open-string-raised-by-fret-semitones", "pitch(result) == pitch(open_string(self.tuning[string])) + fret"),
-             ("records-string-and-fret", "result.string == string and result.fret == fret")],
+             ("records-string-and-fret", "result.string == string and result.fret == fret"),
+             ("a-new-note-object-every-time", "is_fresh(result)")],
     raises={"RangeError": "string < 0 or string >= len(self.tuning) or fret < 0 or fret > maxfret"},
     split=_GN, split_is_domain=True,
     properties=["C20"], battery="tuning_string_fret")
